@@ -120,8 +120,8 @@ def run(obs, scratch, scratch_repo, log, seed=0):
         keys = sorted(groups, key=lambda k: (k[2] != "heavy", -len(groups[k])))
         par = min(3, len(keys))
         jobs_each = JOBS if par == 1 else (10 if par == 2 else 7)
-        # split the cores over the first `par` groups in proportion to their weight (heavy harnesses count double)
-        wt = {k: len(groups[k]) * (2 if k[2] == "heavy" else 1) for k in keys}
+        # split the cores over the first `par` groups in proportion to their weight (estimated cost: heavy 4, functional 2, full-check scalar harnesses 0.5)
+        wt = {k: len(groups[k]) * (4.0 if k[2] == "heavy" else (2.0 if k[1] != "full" else 0.5)) for k in keys}
         first = keys[:par]
         tot = sum(wt[k] for k in first) or 1
         share = {k: (max(2, int(round((JOBS + 2) * wt[k] / tot))) if k in first else jobs_each) for k in keys}
